@@ -31,12 +31,21 @@ type SynthCommit struct {
 
 type SynthOpts struct {
 	MaxCommits, MaxAuthors, MaxFiles, MaxChain int
+	// NonMonotoneDates: in a third of the histories about every 6th commit carries a date 1-60 days EARLIER than its
+	// predecessor's (a cherry-picked / rebased commit, a merged long-lived branch). Such a commit only creates files,
+	// so for every file the first commit (in list order) is also its earliest-dated commit and "first-commit date"
+	// stays unambiguous.
+	NonMonotoneDates bool
+	// DoubleCreate: now and then an existing path gets a second change of mode "create" with no deletion in between
+	// (the linear log of two merged branches that both added the file).
+	DoubleCreate bool
 }
 
 type SynthStats struct {
 	Renames, Deletes, Recreates, MaxChain, IntoSub, OutOfSub, FullPath, Brace, RenameBack int
 	RootIntoDirBrace, DirToRootBrace                                                      int // `{ => cmd}/main.go`, `{src => }/app.go`
 	TwinAuthors                                                                           int // two authors that differ only in letter case
+	DipCommits, DoubleCreates                                                             int
 }
 
 // synthTwins: distinct author names (git compares them byte-wise) that a case-folding key would merge.
@@ -107,11 +116,18 @@ func SynthHistory(r *run.Rand, o SynthOpts) ([]SynthCommit, SynthStats) {
 		}
 	}
 	var out []SynthCommit
+	dips := o.NonMonotoneDates && r.Chance(1, 3)
 	for i := 0; i < n; i++ {
 		if !r.Chance(2, 5) { // ties in dates are frequent
 			day += r.Range(1, 40)
 		}
-		c := SynthCommit{Rev: fmt.Sprintf("%07x", 0x1000000+i*7919+r.Intn(7000)), Author: authors[r.Intn(len(authors))], Date: shortDate(1546300800+int64(day)*86400, "+0000")}
+		cday := day
+		dip := dips && i > 0 && created < o.MaxFiles && r.Chance(1, 6)
+		if dip {
+			cday = day - r.Range(1, 60)
+			st.DipCommits++
+		}
+		c := SynthCommit{Rev: fmt.Sprintf("%07x", 0x1000000+i*7919+r.Intn(7000)), Author: authors[r.Intn(len(authors))], Date: shortDate(1546300800+int64(cday)*86400, "+0000")}
 		w := r.Pick(words)
 		if r.Chance(3, 5) {
 			t := r.Pick(ccTypes)
@@ -149,6 +165,12 @@ func SynthHistory(r *run.Rand, o SynthOpts) ([]SynthCommit, SynthStats) {
 				default:
 					kind = "rename"
 				}
+				if o.DoubleCreate && r.Chance(1, 25) {
+					kind = "create-again"
+				}
+			}
+			if dip {
+				kind = "create" // a commit with an earlier date touches no file that existed before it
 			}
 			if kind == "create" && created >= o.MaxFiles {
 				if len(cand) == 0 {
@@ -157,6 +179,13 @@ func SynthHistory(r *run.Rand, o SynthOpts) ([]SynthCommit, SynthStats) {
 				kind = "modify"
 			}
 			switch kind {
+			case "create-again":
+				// the path exists and is "created" once more (added on two branches that were merged): one more
+				// revision and author of the same, still existing file
+				f := cand[r.Intn(len(cand))]
+				touched[f] = true
+				st.DoubleCreates++
+				c.Changes = append(c.Changes, SynthChange{Added: r.Range(0, 40), File: f.path, Mode: "create"})
 			case "create":
 				p := ""
 				if len(deadBefore) > 0 && r.Chance(1, 2) {
